@@ -1,7 +1,7 @@
 """
 C19 — clearing a dataset directory removes only dataset files, with consent.
 Correspondence: kapture.io.structure.delete_existing_kapture_files run on real sandbox directories (every dataset path
-absent / file / folder / symlink to an outside file, folder or nothing; user files alongside) versus Model/C19.lean on the
+absent / file / folder / symlink to an outside file, folder or nothing; user files alongside, or user links / empty folders only, or nothing) versus Model/C19.lean on the
 same only/skip/force/answer and path kinds.  Compared: outcome class and the set of deleted paths.
 Oracle (implementation only): snapshots of the sandbox and of the outside area before and after the call.
 """
@@ -62,10 +62,21 @@ def build(case, base):
     for fn in ('fileT', 'dirT/f1', 'dirT/sub/f2'):
         with open(os.path.join(outside, fn), 'w') as f:
             f.write('outside ' + fn)
-    for uf in USER_FILES:
-        os.makedirs(os.path.dirname(os.path.join(root, uf)), exist_ok=True)
-        with open(os.path.join(root, uf), 'w') as f:
-            f.write('user ' + uf)
+    user = case.get('user', 'files')
+    if user == 'files':
+        for uf in USER_FILES:
+            os.makedirs(os.path.dirname(os.path.join(root, uf)), exist_ok=True)
+            with open(os.path.join(root, uf), 'w') as f:
+                f.write('user ' + uf)
+    elif user == 'links':
+        # what the user keeps inside sensors/ and reconstruction/ holds NO regular file: a link to a folder elsewhere, an empty
+        # folder (a sub-folder that "looks empty" to a file listing is still the user's)
+        with open(os.path.join(root, 'my_notes.txt'), 'w') as f:
+            f.write('user my_notes.txt')
+        os.makedirs(os.path.join(root, 'reconstruction'), exist_ok=True)
+        os.symlink(os.path.join(outside, 'dirT'), os.path.join(root, 'reconstruction', 'colmap_ws'))
+        os.makedirs(os.path.join(root, 'sensors', 'my_empty_folder'))
+        os.makedirs(os.path.join(root, 'reconstruction', 'scratch', 'deeper'))
     for p, k in case['kinds'].items():
         full = os.path.join(root, p)
         os.makedirs(os.path.dirname(full), exist_ok=True)
@@ -255,7 +266,8 @@ def gen_case(rng, sel=None):
         else:
             sel = (rng.sample(t['types'], k), rng.sample(t['types'], rng.randint(1, 4)))
     force = rng.random() < 0.4
-    return {'kinds': kinds, 'only': sel[0], 'skip': sel[1], 'force': force, 'answer': rng.choice(ANSWERS)}
+    return {'kinds': kinds, 'only': sel[0], 'skip': sel[1], 'force': force, 'answer': rng.choice(ANSWERS),
+            'user': rng.choice(['files', 'files', 'links', 'none'])}
 
 
 def cases(rng, tier):
@@ -270,6 +282,11 @@ def cases(rng, tier):
                     del kinds[t['rec']]
                 out.append({'kinds': kinds, 'only': [tn] if which == 'only' else None,
                             'skip': [tn] if which == 'skip' else None, 'force': True, 'answer': ''})
+            # ... and on a directory whose folders are links to a store elsewhere, the user keeping no regular file in sensors/
+            # and reconstruction/: what survives there is links and empty folders only
+            kinds = {p: 'linkDir' if '.' not in p.split('/')[-1] else 'file' for p in t['paths']}
+            out.append({'kinds': kinds, 'only': [tn] if which == 'only' else None,
+                        'skip': [tn] if which == 'skip' else None, 'force': True, 'answer': '', 'user': 'links'})
     n = 350 if tier == 'quick' else 8000
     for _ in range(n):
         out.append(gen_case(rng))
